@@ -274,10 +274,12 @@ class ResourceMap:
         supermap).
         """
         # Before scrapping everything, update their parent information
-        for handle in self.handles.values():
-            if handle.parent == self:
-                handle.parent = None
-                handle.key = None
+        # (handles shadowed in deeper layers included)
+        for layer in self.handles.maps:
+            for handle in layer.values():
+                if handle.parent == self:
+                    handle.parent = None
+                    handle.key = None
 
         for map_ in self.maps.values():
             if map_.parent == self:
@@ -285,7 +287,9 @@ class ResourceMap:
                 map_.key = None
 
         self.maps.clear()
-        self.handles.clear()
+        # ChainMap.clear() would only empty the first layer
+        for layer in self.handles.maps:
+            layer.clear()
 
     def get_static_map(self) -> StaticResourceMap:
         """Generate a static map for convenience resource access.
